@@ -181,6 +181,21 @@ func VH_C16_Buckets(k, shape, pfmt, rx int) {
 			fi += 2
 		}
 	}
+	// both expressions at once: shown iff the header matches the match
+	// expression and does not match the filter
+	m2 := vhFilters[(rx+1)%3]
+	both := &vhOut{}
+	_ = writeBucketsToConsole(both, vhPalette, a, pf, false, vhFilter, m2)
+	bi := 0
+	for i := range a.Buckets {
+		h := all.parts[2*i]
+		if !vhFilter.MatchString(h) && m2.MatchString(h) {
+			ok := bi+1 < len(both.parts) && both.parts[bi] == h && both.parts[bi+1] == all.parts[2*i+1]
+			vAssert(ok, "a bucket admitted by filter and match together is shown, in order")
+			bi += 2
+		}
+	}
+	vAssert(bi == len(both.parts), "nothing else is shown when filter and match are combined")
 }
 
 // VH_C16_Goroutines: the race rendering path (one block per goroutine).
@@ -231,4 +246,17 @@ func VH_C16_Goroutines(k, rx int) {
 	_ = writeGoroutinesToConsole(fo, vhPalette, s, pf, false, vhFilter, nil)
 	_ = writeGoroutinesToConsole(mo, vhPalette, s, pf, false, nil, vhFilter)
 	vAssert(len(fo.parts)+len(mo.parts) == 2*k, "filter-out and match-only outputs together hold every goroutine once")
+	m2 := vhFilters[(rx+1)%3]
+	both := &vhOut{}
+	_ = writeGoroutinesToConsole(both, vhPalette, s, pf, false, vhFilter, m2)
+	bi := 0
+	for i := 0; i < k; i++ {
+		h := out.parts[2*i]
+		if !vhFilter.MatchString(h) && m2.MatchString(h) {
+			ok := bi+1 < len(both.parts) && both.parts[bi] == h && both.parts[bi+1] == out.parts[2*i+1]
+			vAssert(ok, "a goroutine admitted by filter and match together is shown, in order")
+			bi += 2
+		}
+	}
+	vAssert(bi == len(both.parts), "nothing else is shown when filter and match are combined")
 }
